@@ -448,6 +448,10 @@ class LiveMedia(MediaRequestBase):
                           timing.elapsedTime, first, last)
             seg_num, mod_segment, origin_time = representation.calculate_segment_number_and_time(
                 seg_time, seg_num)
+            if mode == 'live' and seg_time is not None:
+                # a segment number derived from $Time$ counts from zero, but
+                # first and last count from start_number
+                seg_num += representation.start_number
             logging.debug('segment=%d mod=%d origin=%d', seg_num, mod_segment, origin_time)
         except ValueError as err:
             logging.warning('ValueError: %s', err)
